@@ -1,12 +1,306 @@
-/- C15 model — placeholder until the property is built -/
+/-
+  C15 — the periodic timer runner of klongpy/sys_fn_timer.py over exact integer time
+  (one unit = 2^-10 s; every float operation of the runner is exact on such values).
+
+  Mirrors:
+    asyncio BaseEventLoop._run_once     -> the dispatch rule of `dispatch`: a pending handle may
+                                           run when it was queued by `call_soon` or
+                                           `when < now + resolution`; WHICH legal handle runs, and
+                                           how late, is an input (relational: the real run's
+                                           choice is replayed, every theorem holds for all choices)
+    _call_periodic (first scheduling)   -> `create`   (call_at(start+interval) / call_soon)
+    _call_periodic.run                  -> `dispatch` (callback, then delegate check [fix1],
+                                           reschedule `interval - ((now-start) % interval)` via
+                                           call_later = second clock read `drift` later,
+                                           or `handle.cancel()`; except-branch [fix2])
+    KGTimerHandler.cancel               -> `cancel`   (0 when delegate is None; else cancel the
+                                           loop handle, clear delegate, 1)
+    eval_sys_fn_cancel_timer (.timerc)  -> `timerc`
+    KGFnWrapper.__call__ (re-resolution)-> `Timer.ver`: the binding of the callback symbol, read
+                                           at every tick, changed by `redefine`
+
+  `Cfg.fix1/fix2 = true` is the repaired code (branch fix-c15); `false` is the pinned tree,
+  kept so that the two defects can be stated and decided on concrete witnesses.
+  `Cfg.minAdv` is the explicit clock convention of DESIGN §7/C15: at least `minAdv` time
+  units pass between the loop's dispatch decision and the callback's start.
+-/
 import Klong.Model.Wire
 namespace Klong.C15
+open Klong.Wire
 
-structure State where
-  unit : Unit := ()
+/-- what a callback invocation does besides taking time and returning a value -/
+inductive Act
+  | none
+  | cancelSelf               -- `.timerc` on its own timer
+  | cancelOther (j : Nat)    -- `.timerc` on timer `j`
+  | redefine (v : Nat)       -- rebinds its own callback symbol to version `v`
+  | raise                    -- raises instead of returning
+deriving Repr, DecidableEq
 
-def init : State := {}
+/-- a pending asyncio handle of a timer's `run` closure -/
+structure LH where
+  id : Nat
+  timer : Nat
+  soon : Bool      -- queued by `call_soon` (interval 0); otherwise a TimerHandle with `when`
+  when : Int
+  n : Int          -- ghost: the boundary index this handle is charged to
+deriving Repr, DecidableEq
 
-def handle (s : State) (_ws : List String) : State × String := (s, "bad-op")
+structure Timer where
+  interval : Nat := 0
+  start : Int := 0
+  delegate : Option Nat := none    -- KGTimerHandler.delegate (id of a loop handle)
+  ver : Nat := 0                   -- current binding of the callback symbol
+
+structure Cfg where
+  res : Nat        -- loop._clock_resolution
+  minAdv : Nat     -- time between dispatch decision and the callback's start (lower bound)
+  fix1 : Bool
+  fix2 : Bool
+deriving Repr, DecidableEq
+
+inductive Ev
+  | created (k : Nat) (start : Int) (interval : Nat)
+  | tick (k : Nat) (start : Int) (interval : Nat) (t : Int) (n : Int) (dur : Nat) (ver : Nat)
+  | ret (k : Nat) (r : Bool)
+  | raised (k : Nat)
+  | timerc (k : Nat) (r : Nat)
+  | redefined (k : Nat) (v : Nat)
+deriving Repr, DecidableEq
+
+structure St where
+  now : Int := 0
+  nextId : Nat := 0
+  ntimers : Nat := 0
+  handles : List LH := []            -- scheduled or ready, not cancelled, not yet run
+  tm : Nat → Timer := fun _ => {}
+  log : List Ev := []                -- newest first
+
+inductive Inp
+  | create (interval : Nat)
+  | advance (d : Nat)
+  | timerc (k : Nat)
+  | redefine (k v : Nat)
+  | dispatch (hid adv dur : Nat) (ret : Bool) (act : Act) (drift : Nat)
+deriving Repr, DecidableEq
+
+def updTm (tm : Nat → Timer) (k : Nat) (t : Timer) : Nat → Timer :=
+  fun j => if j = k then t else tm j
+
+/-- `KGTimerHandler.cancel` -/
+def cancel (s : St) (k : Nat) : St × Nat :=
+  match (s.tm k).delegate with
+  | none => (s, 0)
+  | some d =>
+    ({ s with handles := s.handles.filter (fun h => h.id != d)
+            , tm := updTm s.tm k { s.tm k with delegate := none } }, 1)
+
+/-- `.timerc(th_k)`: the result is observable -/
+def timerc (s : St) (k : Nat) : St :=
+  let p := cancel s k
+  { p.1 with log := .timerc k p.2 :: p.1.log }
+
+def redefine (s : St) (k v : Nat) : St :=
+  { s with tm := updTm s.tm k { s.tm k with ver := v }, log := .redefined k v :: s.log }
+
+/-- the handle `run` is (re)scheduled with, computed from the clock value `f` the runner read;
+    `call_later` reads the clock again `drift` later -/
+def nextHandle (t : Timer) (id k : Nat) (f : Int) (drift : Nat) (prevN : Int) : LH :=
+  if t.interval = 0 then
+    { id := id, timer := k, soon := true, when := f + drift, n := prevN + 1 }
+  else
+    { id := id, timer := k, soon := false
+    , when := f + drift + (t.interval - (f - t.start) % t.interval)
+    , n := (f - t.start) / t.interval + 1 }
+
+def schedule (s : St) (k : Nat) (drift : Nat) (prevN : Int) : St :=
+  let h := nextHandle (s.tm k) s.nextId k s.now drift prevN
+  { s with nextId := s.nextId + 1, handles := s.handles ++ [h], now := s.now + drift
+         , tm := updTm s.tm k { s.tm k with delegate := some s.nextId } }
+
+/-- `eval_sys_fn_timer` / `_call_periodic`: `start = loop.time()`, first run at `start+interval` -/
+def create (s : St) (interval : Nat) : St :=
+  let k := s.ntimers
+  let s1 := { s with ntimers := k + 1
+                   , tm := updTm s.tm k { interval := interval, start := s.now, delegate := none, ver := 0 }
+                   , log := .created k s.now interval :: s.log }
+  schedule s1 k 0 0
+
+/-- side effect of the callback body -/
+def doAct (s : St) (k : Nat) : Act → St
+  | .none => s
+  | .cancelSelf => timerc s k
+  | .cancelOther j => timerc s j
+  | .redefine v => redefine s k v
+  | .raise => s
+
+/-- the loop runs pending handle `hid`; `none` = not a legal move of the loop -/
+def dispatch (c : Cfg) (s : St) (hid adv dur : Nat) (ret : Bool) (act : Act) (drift : Nat) :
+    Option St :=
+  match s.handles.find? (fun h => h.id == hid) with
+  | none => none
+  | some h =>
+    if (h.soon || decide (h.when < s.now + c.res)) && decide (c.minAdv ≤ adv) then
+      let k := h.timer
+      let t := s.tm k
+      let s1 : St := { s with handles := s.handles.filter (fun x => x.id != hid)
+                            , now := s.now + adv + dur
+                            , log := .tick k t.start t.interval (s.now + adv) h.n dur t.ver :: s.log }
+      if act = .raise then
+        let s2 : St := { s1 with log := .raised k :: s1.log }
+        some (if c.fix2 then (cancel s2 k).1 else s2)
+      else
+        let s2 := doAct s1 k act
+        let s3 : St := { s2 with log := .ret k ret :: s2.log }
+        if c.fix1 && (s3.tm k).delegate.isNone then some s3
+        else if ret then some (schedule s3 k drift h.n)
+        else some (cancel s3 k).1
+    else none
+
+/-- one input; illegal inputs leave the state unchanged (second component `false`) -/
+def step (c : Cfg) (s : St) : Inp → St × Bool
+  | .create i => (create s i, true)
+  | .advance d => ({ s with now := s.now + d }, true)
+  | .timerc k => (timerc s k, true)
+  | .redefine k v => if k < s.ntimers then (redefine s k v, true) else (s, false)
+  | .dispatch hid adv dur ret act drift =>
+    match dispatch c s hid adv dur ret act drift with
+    | some s' => (s', true)
+    | none => (s, false)
+
+def run (c : Cfg) (s : St) : List Inp → St
+  | [] => s
+  | i :: is => run c (step c s i).1 is
+
+def init : St := {}
+
+/-- the repaired code under the physically meaningful clock convention -/
+def Cfg.good (c : Cfg) : Prop := c.fix1 = true ∧ c.fix2 = true ∧ c.res ≤ c.minAdv
+
+/-! ### observations on logs (newest first) -/
+
+def isStop (k : Nat) : Ev → Bool
+  | .ret j r => j == k && !r
+  | .raised j => j == k
+  | .timerc j r => j == k && r == 1
+  | _ => false
+
+def isTick (k : Nat) : Ev → Bool
+  | .tick j .. => j == k
+  | _ => false
+
+def stopped (k : Nat) (log : List Ev) : Bool := log.any (isStop k)
+
+/-- the latest tick of timer `k`: (time, boundary, duration) -/
+def lastTick (k : Nat) : List Ev → Option (Int × Int × Nat)
+  | [] => none
+  | .tick j _ _ t n d _ :: rest => if j = k then some (t, n, d) else lastTick k rest
+  | _ :: rest => lastTick k rest
+
+/-- the latest tick of any timer: (time, duration) -/
+def lastAny : List Ev → Option (Int × Nat)
+  | [] => none
+  | .tick _ _ _ t _ d _ :: _ => some (t, d)
+  | _ :: rest => lastAny rest
+
+/-- current binding of timer `k`'s callback symbol according to the log -/
+def lastVer (k : Nat) : List Ev → Nat
+  | [] => 0
+  | .redefined j v :: rest => if j = k then v else lastVer k rest
+  | .created j _ _ :: rest => if j = k then 0 else lastVer k rest
+  | _ :: rest => lastVer k rest
+
+/-! ### driver -/
+
+def showEv : Ev → String
+  | .created k s i => s!"created:{k}:{s}:{i}"
+  | .tick k _ _ t n d v => s!"tick:{k}:{t}:{n}:{d}:{v}"
+  | .ret k r => s!"ret:{k}:{if r then 1 else 0}"
+  | .raised k => s!"raised:{k}"
+  | .timerc k r => s!"timerc:{k}:{r}"
+  | .redefined k v => s!"redefined:{k}:{v}"
+
+def showHandle (h : LH) : String :=
+  if h.soon then s!"{h.id}:{h.timer}:soon" else s!"{h.id}:{h.timer}:{h.when}"
+
+def insertById (h : LH) : List LH → List LH
+  | [] => [h]
+  | x :: xs => if h.id ≤ x.id then h :: x :: xs else x :: insertById h xs
+
+def sortById (hs : List LH) : List LH := hs.foldr insertById []
+
+def showDelegates (s : St) : String :=
+  ",".intercalate ((List.range s.ntimers).map fun k =>
+    match (s.tm k).delegate with
+    | none => s!"{k}:-"
+    | some d => s!"{k}:{d}")
+
+def digest (s : St) : String :=
+  s!"now={s.now} pending={",".intercalate ((sortById s.handles).map showHandle)} delegates={showDelegates s}"
+
+/-- events logged between the old and the new state, oldest first -/
+def newEvents (old new : St) : String :=
+  ";".intercalate (((new.log.take (new.log.length - old.log.length)).reverse).map showEv)
+
+def parseAct (s : String) : Option Act :=
+  match s.splitOn ":" with
+  | ["none"] => some .none
+  | ["self"] => some .cancelSelf
+  | ["raise"] => some .raise
+  | ["other", j] => j.toNat?.map .cancelOther
+  | ["redef", v] => v.toNat?.map .redefine
+  | _ => none
+
+def boolField (fs : List (String × String)) (k : String) : Option Bool :=
+  match fs.lookup k with
+  | some "1" => some true
+  | some "0" => some false
+  | _ => none
+
+structure DState where
+  cfg : Cfg := ⟨1, 1, true, true⟩
+  st : St := {}
+
+def dinit : DState := {}
+
+def reply (d : DState) (p : St × Bool) : DState × String :=
+  if p.2 then ({ d with st := p.1 }, s!"ok ev={newEvents d.st p.1} {digest p.1}")
+  else (d, "illegal " ++ digest d.st)
+
+def handle (d : DState) (ws : List String) : DState × String :=
+  match ws with
+  | "new" :: rest =>
+    let fs := fields rest
+    match natField fs "res", natField fs "minadv", boolField fs "fix1", boolField fs "fix2",
+          intField fs "now" with
+    | some r, some m, some f1, some f2, some t =>
+      let d' : DState := { cfg := ⟨r, m, f1, f2⟩, st := { now := t } }
+      (d', "ok ev= " ++ digest d'.st)
+    | _, _, _, _, _ => (d, "bad-op")
+  | "create" :: rest =>
+    match natField (fields rest) "interval" with
+    | some i => reply d (step d.cfg d.st (.create i))
+    | none => (d, "bad-op")
+  | "advance" :: rest =>
+    match natField (fields rest) "d" with
+    | some n => reply d (step d.cfg d.st (.advance n))
+    | none => (d, "bad-op")
+  | "timerc" :: rest =>
+    match natField (fields rest) "k" with
+    | some k => reply d (step d.cfg d.st (.timerc k))
+    | none => (d, "bad-op")
+  | "redefine" :: rest =>
+    let fs := fields rest
+    match natField fs "k", natField fs "v" with
+    | some k, some v => reply d (step d.cfg d.st (.redefine k v))
+    | _, _ => (d, "bad-op")
+  | "dispatch" :: rest =>
+    let fs := fields rest
+    match natField fs "h", natField fs "adv", natField fs "dur", boolField fs "ret",
+          (fs.lookup "act").bind parseAct, natField fs "drift" with
+    | some h, some a, some du, some r, some act, some dr =>
+      reply d (step d.cfg d.st (.dispatch h a du r act dr))
+    | _, _, _, _, _, _ => (d, "bad-op")
+  | _ => (d, "bad-op")
 
 end Klong.C15
